@@ -187,6 +187,8 @@ structure Client where
   st : ClientState := {}
   /-- hosts with a pooled connection -/
   conns : List Bytes := []
+  /-- pooled connections on which a read or write failed (network.rs `broken`): replaced at the next checkout -/
+  broken : List Bytes := []
 deriving Repr
 
 /-! ### environment -/
@@ -225,9 +227,10 @@ def nextCorr : CM σ Int := fun w =>
     Idle time-outs are modelled at their two extremes only: 0 = reconnect on every use, anything else = never. -/
 def getConn (env : Env σ) (host : Bytes) : CM σ Unit := fun w =>
   if host ∈ w.client.conns then
-    if w.client.cfg.idleTimeoutMs = 0 then
+    if w.client.cfg.idleTimeoutMs = 0 ∨ host ∈ w.client.broken then
       let (wd, ok) := env.connect w.world host
-      if ok then ({ w with world := wd }, .ok ()) else ({ w with world := wd }, .err .io)
+      if ok then ({ world := wd, client := { w.client with broken := w.client.broken.filter (· ≠ host) } }, .ok ())
+      else ({ w with world := wd }, .err .io)
     else (w, .ok ())
   else
     let (wd, ok) := env.connect w.world host
@@ -242,13 +245,13 @@ def sendRequest (env : Env σ) (host : Bytes) (payload : Except Err Bytes) : CM 
     let (wd, r) := env.send w.world host frame
     match r with
     | .ok () => ({ w with world := wd }, .ok ())
-    | .error e => ({ w with world := wd }, .err e)
+    | .error e => ({ world := wd, client := { w.client with broken := w.client.broken ++ [host] } }, .err e)
 
 def recvReply (env : Env σ) (host : Bytes) : CM σ Bytes := fun w =>
   let (wd, r) := env.recv w.world host
   match r with
   | .ok b => ({ w with world := wd }, .ok b)
-  | .error e => ({ w with world := wd }, .err e)
+  | .error e => ({ world := wd, client := { w.client with broken := w.client.broken ++ [host] } }, .err e)
 
 def decodeWith {α} (d : Dec α) (bs : Bytes) : CM σ α :=
   match d bs with
@@ -508,9 +511,10 @@ def coordinatorStep (env : Env σ) (group : Bytes) (req : GroupCoordinatorReques
   match env.pick w.world w.client.conns with
   | none => M.panic "client/mod.rs:1489 expect available connection"
   | some host => do
-    -- `get_conn_any`: with a zero idle time-out the pooled connection is re-established first
-    if w.client.cfg.idleTimeoutMs = 0 then
-      (fun w => let (wd, _) := env.connect w.world host; ({ w with world := wd }, .ok ()))
+    -- `get_conn_any`: with a zero idle time-out, or after an I/O failure on it, the pooled connection is re-established first
+    if w.client.cfg.idleTimeoutMs = 0 ∨ host ∈ w.client.broken then
+      (fun w => let (wd, ok) := env.connect w.world host
+        ({ world := wd, client := if ok then { w.client with broken := w.client.broken.filter (· ≠ host) } else w.client }, .ok ()))
     sendRequest env host req.encode
     let b ← recvReply env host
     let r ← decodeWith rGroupCoordinatorResponse b
